@@ -118,7 +118,7 @@ func c18Drive(c *Case, lim *rate.Limiter, ts []int64) (grants []int64) {
 
 func runC18(r *Run) {
 	r.CaseTimeout = 120 * time.Second // the operator-level case bounds itself at 50 s and turns inconclusive
-	r.Rule = "(a) the rate.Limiter returned by the real CreateRateLimiter for random (I, B) — I from 1 ms to 5 s incl. values that are not a whole number of ms, B from 0 (= default 1) to 10 — driven through ReserveN(t,1).DelayFrom(t) with 20..80 (thorough 100) explicit request times on a millisecond grid in 7 arrival patterns (one burst, faster than I, slower than I, exactly I, bursts with gaps, mixed, random); every delay is compared with the integer model (tolerance 1 us) and the window bound B+ceil(T/I) is checked exactly on the limiter's own grant times for every window; unthrottled configurations (no settings, I = 0, I < 0) must never delay; a few cases with request times going backwards exercise the clamp (correspondence only). (b) settings blocks loaded through the real HookConfig.LoadAndValidate -> CreateRateLimiter -> Limit()/Burst(). (c) wall-clock runs (2 quick, 8 thorough) of Hook.RateLimitWait from 1..3 goroutines (queues), start times measured with time.Now(), bound checked with a 40 ms allowance for timer lateness (runtime observation; inconclusive rather than failing when the scheduler was late). (d) ShellOperator.taskHandleHookRun itself (hooks loaded from a generated hooks directory through the real hook manager, `settings` in the hook's --config output) called for queued HookRun tasks from 1..3 goroutines; the hook script logs its own start time; the bound is checked with a 120 ms allowance for process start-up (1 run quick, 4 thorough, one of them unthrottled). Non-trivial: >= 20 requests of which at least one was delayed; distinct = distinct op-line sequences."
+	r.Rule = "(a) the rate.Limiter returned by the real CreateRateLimiter for random (I, B) — I from 1 ms to 5 s incl. values that are not a whole number of ms, B from 0 (= default 1) to 10 — driven through ReserveN(t,1).DelayFrom(t) with 20..80 (thorough 100) explicit request times on a millisecond grid in 7 arrival patterns (one burst, faster than I, slower than I, exactly I, bursts with gaps, mixed, random); every delay is compared with the integer model (tolerance 1 us) and the window bound B+ceil(T/I) is checked exactly on the limiter's own grant times for every window; unthrottled configurations (no settings, I = 0, I < 0) must never delay; a few cases with request times going backwards exercise the clamp and are checked against the skew bound B+ceil((T+S)/I). (b) settings blocks loaded through the real HookConfig.LoadAndValidate -> CreateRateLimiter -> Limit()/Burst(). (c) wall-clock runs (2 quick, 8 thorough) of Hook.RateLimitWait from 1..3 goroutines (queues), start times measured with time.Now(), bound checked with a 40 ms allowance for timer lateness (runtime observation; inconclusive rather than failing when the scheduler was late). (d) ShellOperator.taskHandleHookRun itself (hooks loaded from a generated hooks directory through the real hook manager, `settings` in the hook's --config output) called for queued HookRun tasks from 1..3 goroutines; the hook script logs its own start time; the bound is checked with a 120 ms allowance for process start-up (1 run quick, 4 thorough, one of them unthrottled). Non-trivial: >= 20 requests of which at least one was delayed; distinct = distinct op-line sequences."
 
 	// ---- corpus ----
 	r.One(0, func(c *Case, _ *Rng) {
@@ -242,6 +242,11 @@ func runC18(r *Run) {
 			c.Oracle(fmt.Sprintf("nodelay reqs=%s starts=%s", joinI64(ts), joinI64(g)))
 			c.Note("kind:unthrottled")
 		case backwards:
+			eb := b
+			if eb == 0 {
+				eb = 1
+			}
+			c.Oracle(fmt.Sprintf("boundskew I=%d B=%d reqs=%s starts=%s", int64(iv), eb, joinI64(ts), joinI64(g)))
 			c.Note("kind:backwards-clock")
 		default:
 			eb := b
